@@ -1,3 +1,2 @@
 import PieModel.Props.C01
-open PieModel
-#print axioms C01_placeholder
+#print axioms PieModel.C01_placeholder
